@@ -5,6 +5,7 @@ CONSTANTS
   PathsC <- MCPaths
   WritesC <- MCWrites
   Victim = "R"
+  ConvertGuard = TRUE
   EphemeralIsRealm = TRUE
   MaxDepth = 5
   MaxFvals = 2
@@ -12,4 +13,4 @@ CONSTANTS
 INIT Init
 NEXT Next
 VIEW View
-INVARIANTS StorageImpliesAuthority AttackerTextNeverAuthorised NoForeignWrite NothingPersistsFromAbort RealmCodeRunsAtHome ConstructOnlyAtHome
+INVARIANTS StorageImpliesAuthority AttackerTextNeverAuthorised NoForeignWrite NothingPersistsFromAbort RealmCodeRunsAtHome ConstructOnlyAtHome NoLaunderedReceiver
